@@ -4,7 +4,8 @@ From Coq Require Import String List NArith Bool Permutation.
 From J5V.lib Require Import Outcome.
 From J5V.model Require Import Pipeline PipelineCorr.
 From J5V.gen Require SwaggerGen.
-From J5V.proofs Require Import PipelineProofs.
+From J5V.lib Require Strcase.
+From J5V.proofs Require Import PipelineProofs PipelineStrcaseProofs StrcaseProofs.
 Import ListNotations.
 Local Open Scope N_scope.
 
@@ -60,6 +61,31 @@ Theorem C16_path_law_collision_refuted : forall to_snake n m,
   /\ join_with SLASH [[]; COLON :: n] <> join_with SLASH [[]; COLON :: m].
 Proof. exact path_law_collision. Qed.
 Print Assumptions C16_path_law_collision_refuted.
+
+(* the same with the byte-exact model of iancoleman/strcase.ToSnake (lib/Strcase.v): the law holds
+   for every request whose property names are lowerCamel (letters, no two adjacent capitals) *)
+Theorem C16_path_law_strcase : forall props parts,
+  parts <> [] -> Forall (wf_part props) parts -> all_lower_camel props ->
+  to_client_path (fields_of Strcase.to_snake props) (to_http_path Strcase.to_snake (join_with SLASH parts))
+    = Ok (join_with SLASH parts).
+Proof. exact path_law_strcase. Qed.
+Print Assumptions C16_path_law_strcase.
+
+Theorem C16_method_declared_strcase : forall d,
+  1 <= dm_verb d <= 5 -> dm_parts d <> [] -> Forall (wf_part (dm_props d)) (dm_parts d) ->
+  all_lower_camel (dm_props d) ->
+  build_method (compile_method Strcase.to_snake d) = Ok (declared_src d).
+Proof. exact build_method_declared_strcase. Qed.
+Print Assumptions C16_method_declared_strcase.
+
+(* ... and fails for a request that declares both fooId and foo_id (same snake form) *)
+Theorem C16_strcase_collision_refuted :
+  n_fooId <> n_foo_id /\ Strcase.to_snake n_fooId = Strcase.to_snake n_foo_id
+  /\ to_client_path (fields_of Strcase.to_snake [n_fooId; n_foo_id])
+       (to_http_path Strcase.to_snake (join_with SLASH [[]; COLON :: n_foo_id]))
+     = Ok (join_with SLASH [[]; COLON :: n_fooId]).
+Proof. exact strcase_collision. Qed.
+Print Assumptions C16_strcase_collision_refuted.
 
 Theorem C16_service_suffixes : forall x,
   classify_service (x ++ bytes_of "Service") = KService /\ classify_service (x ++ bytes_of "Topic") = KTopic.
@@ -156,6 +182,11 @@ Example C16_example_method :
   /\ build_method (compile_method ex_snake d) = Ok (declared_src d)
   /\ sm_path (declared_src d) = bytes_of "/foo/:barId/sub".
 Proof. cbv zeta. split; [|split]; vm_compute; reflexivity. Qed.
+
+Example C16_example_strcase :
+  all_lower_camel [bytes_of "barId"; bytes_of "accountRef"]
+  /\ Strcase.to_snake (bytes_of "barId") = bytes_of "bar_id".
+Proof. split; [repeat constructor|vm_compute; reflexivity]. Qed.
 
 Example C16_example_partition :
   let ps := [{| p_json := bytes_of "barId"; p_ty := TScalar "key" |}; {| p_json := bytes_of "q"; p_ty := TScalar "string" |}] in
